@@ -142,7 +142,9 @@ def summarize(check: Check, batch: Batch, idx: int, scn, res) -> Dict[str, Any]:
                       "detail": {"where": res["watchdog"][:4]}})
     if err is not None and not err.get("expected"):
         props = attribute_exception(err)
+        res["_mon"] = mon
         custom = check.exc_is_violation(err, scn, res) if check.exc_is_violation else None
+        res.pop("_mon", None)
         if custom is not None:
             props = [custom] if custom else []
         for prop in props:
